@@ -9,7 +9,7 @@ from harness.runner import Check  # noqa: E402
 
 KINDS = ["eager", "lazy", "reflect", "normalize", "sequential", "moment_matching", "memoize", "user_partial", "adjoint", "user_partial2"]
 TOTAL_KINDS = 6   # the first six are total interpretations that may sit on the raw stack
-FORMS = ["with", "decorator", "memoize()"]
+FORMS = ["with", "decorator", "memoize()", "interpretation()"]
 
 
 class Boom(Exception):
@@ -145,6 +145,15 @@ def step_fn(kind, form, max_extra, inner_depth, with_reentry=False):
                     except Boom:
                         pass
                     IP._STACK.pop()
+            ctxobj = None
+            if form == "interpretation()" and kind != "memoize":
+                # the deprecated spelling `with interpretation(x)`: the object may be created in one context and
+                # entered in another
+                import warnings
+                interp = interp if interp is not None else make(kind)
+                with warnings.catch_warnings():
+                    warnings.simplefilter("ignore")
+                    ctxobj = IP.interpretation(interp)
             pre_kinds = []
             for d in range(depth):
                 k = choose("pre%d" % d, TOTAL_KINDS)
@@ -173,6 +182,14 @@ def step_fn(kind, form, max_extra, inner_depth, with_reentry=False):
             try:
                 if form == "with":
                     with interp:
+                        body()
+                elif form == "interpretation()":
+                    if ctxobj is None:
+                        import warnings
+                        with warnings.catch_warnings():
+                            warnings.simplefilter("ignore")
+                            ctxobj = IP.interpretation(interp)
+                    with ctxobj:
                         body()
                 elif form == "decorator":
                     interp(body)()
@@ -256,6 +273,8 @@ def main():
     for k in KINDS:
         for f in FORMS:
             if f == "memoize()" and k != "memoize":
+                continue
+            if f == "interpretation()" and k not in ("user_partial", "adjoint", "lazy", "memoize"):
                 continue
             if tier == "quick":
                 insts.append((k, f, 1, 2 if k == "user_partial" and f == "with" else 1))
